@@ -57,6 +57,20 @@ class Check(Property):
             self.bump("compatible units")
             out.append({"kind": "compat", "u": [[n, "1/1"]], "in": where,
                         "ops": [{"op": "gs", "f": "compat", "u": [[n, "1/1"]], "in": where}]})
+        # attribute access through a system: the system's variant of a name (every spelling the registry knows as
+        # "<system>_<item>": names, aliases, plurals) else the plain unit
+        variants = []
+        for key in P.proj.unit_by_key:
+            for sname in SYSTEMS:
+                if key.startswith(sname + "_") and len(key) > len(sname) + 1:
+                    variants.append((sname, key[len(sname) + 1:]))
+        plain = [n for n in rng.sample(P.mult, 12) if n.isidentifier()]
+        picks = variants if self.tier != "quick" else rng.sample(variants, min(60, len(variants)))
+        for sname, item in picks + [(rng.choice(SYSTEMS), n) for n in plain] + [(sn, it + "s") for sn, it in picks[:10]]:
+            if not item.isidentifier():
+                continue
+            self.bump("system attribute")
+            out.append({"kind": "attr", "s": sname, "item": item, "ops": [{"op": "gs", "f": "attr", "s": sname, "item": item}]})
         # edit sequences
         for i in range(25 if self.tier == "quick" else 400):
             steps = []
@@ -129,6 +143,12 @@ class Check(Property):
             return [capture(lambda: sorted(u.get_system(c["s"], False).members))]
         if k == "compat":
             return [capture(lambda: sorted(str(x) for x in u.get_compatible_units(c["u"][0][0], c["in"])))]
+        if k == "attr":
+            def run():
+                un = getattr(getattr(u.sys, c["s"]), c["item"])
+                names = list(un._units)
+                return names[0] if len(names) == 1 else str(un)
+            return [capture(run)]
         # edit sequence on a fresh registry
         r = regs.fresh("fraction")
         outs = [{"ok": None}]
@@ -274,6 +294,22 @@ class Check(Property):
             got = {str(x) for x in u.get_compatible_units(n, where)}
             if got != want:
                 v.append(f"C14 compatible units of {n} in {where}: {sorted(got ^ want)[:6]} differ from the same-dimension members")
+        elif k == "attr":
+            # independent reader: does "<system>_<item>" resolve?  then that unit, else the plain one
+            def resolve(name):
+                try:
+                    pf, uu = P.proj.resolve(name)
+                    return (pf["name"] if pf else "") + uu["name"]
+                except regs.D.DefError:
+                    return None
+            want = resolve(c["s"] + "_" + c["item"]) or resolve(c["item"])
+            try:
+                un = getattr(getattr(u.sys, c["s"]), c["item"])
+                got = list(un._units)[0] if len(un._units) == 1 else str(un)
+            except Exception as exc:  # noqa: BLE001
+                got = type(exc).__name__
+            if want is not None and got != want:
+                v.append(f"C14 ureg.sys.{c['s']}.{c['item']} is {got}, the system's variant / plain unit is {want}")
         elif k == "seq":
             v += self.oracle_seq(c)
         return v
